@@ -201,8 +201,10 @@ fn apply_one(root: &Path, f: &Fault, target: &str, created: &mut Vec<String>) ->
         "src-chain" => {
             // the simulator runs one coroutine per job and counts scheduling steps: a thousand
             // extra glyphs is about a million steps, well inside the step bound; much longer
-            // chains would exhaust the bound (a false 'hang') before they exhaust fontc
-            let n = if f.nth > 0 { f.nth } else { *rng.pick(&[40usize, 300, 1000]) };
+            // chains would exhaust the bound (a false 'hang') before they exhaust fontc; with the
+            // decompose option the work per chain is cubic (1000 glyphs: more than a minute of
+            // CPU, finite and not what the property forbids), hence 400 at most
+            let n = if f.nth > 0 { f.nth } else { *rng.pick(&[40usize, 150, 400]) };
             return add_component_chain(root, target, n, created);
         }
         _ => {}
